@@ -62,6 +62,17 @@ def run_verus(rs, extra, log_prefix, multiple_errors=8, rlimit=None, seed=None):
     return out, diags, raw, dt, " ".join(cmd)
 
 
+def enclosing_lemma(meta, o):
+    """the lemma (proof fn in a template) whose text contains template position o (same file, nearest start above)"""
+    f, ln = o["tpl"].rsplit(":", 1)
+    best = None
+    for lem in meta.get("lemmas", []):
+        lf, ll = lem["tpl"].rsplit(":", 1)
+        if lf == f and int(ll) <= int(ln) and (best is None or int(ll) > int(best["tpl"].rsplit(":", 1)[1])):
+            best = lem
+    return best
+
+
 def classify(unit, rs, meta, out, diags):
     """-> (failures, tool_errors). failure = dict(obligation, fn, kind, tags, message, text, rendered)"""
     vr = out.get("verification-results", {})
@@ -161,8 +172,9 @@ def classify(unit, rs, meta, out, diags):
             f["obligation"] = f"{site['file']}::{site['fn']}#{kind}@`{site_text}`"
         elif tplsite is not None:
             o, hl = tplsite
-            f["fn"] = "template:" + o["tpl"]
-            f["tags"] = re.findall(r"\[(C\d+)\]", hl)
+            lem = enclosing_lemma(meta, o)
+            f["fn"] = ("lemma:" + lem["name"]) if lem else ("template:" + o["tpl"])
+            f["tags"] = (lem["tags"] if lem else []) or re.findall(r"\[(C\d+)\]", hl)
             f["text"] = hl
             f["obligation"] = f"{o['tpl']}#{kind}@`{hl}`"
         else:
